@@ -6931,7 +6931,13 @@ int cg_elements_general_write(int fn, int B, int Z, int S,
         }
         n = 0;
         if (start <= section->range[0]) {
-            memcpy(newelems, elements, (size_t)(ElementDataSize*sizeof(cgsize_t)));
+            if (m_type == cgi_datatype(CG_SIZE_DATATYPE)) {
+                memcpy(newelems, elements, (size_t)(ElementDataSize*sizeof(cgsize_t)));
+            } else if (cgi_convert_data(ElementDataSize, m_type, elements,
+                                        cgi_datatype(CG_SIZE_DATATYPE), newelems)) {
+                free(newelems);
+                return CG_ERROR;
+            }
             n += ElementDataSize;
             if (end < section->range[0]) {
                 num = section->range[0] - end - 1;
@@ -6957,14 +6963,26 @@ int cg_elements_general_write(int fn, int B, int Z, int S,
                 for (i = 0; i < elemsize; i++)
                     newelems[n++] = 0;
             }
-            memcpy(&newelems[n], elements, (size_t)(ElementDataSize*sizeof(cgsize_t)));
+            if (m_type == cgi_datatype(CG_SIZE_DATATYPE)) {
+                memcpy(&newelems[n], elements, (size_t)(ElementDataSize*sizeof(cgsize_t)));
+            } else if (cgi_convert_data(ElementDataSize, m_type, elements,
+                                        cgi_datatype(CG_SIZE_DATATYPE), &newelems[n])) {
+                free(newelems);
+                return CG_ERROR;
+            }
             n += ElementDataSize;
         } else {
             num = start - section->range[0];
             size = cgi_element_data_size(type, num, oldelems, NULL);
             memcpy(newelems, oldelems, (size_t)(size*sizeof(cgsize_t)));
             n += size;
-            memcpy(&newelems[n], elements, (size_t)(ElementDataSize*sizeof(cgsize_t)));
+            if (m_type == cgi_datatype(CG_SIZE_DATATYPE)) {
+                memcpy(&newelems[n], elements, (size_t)(ElementDataSize*sizeof(cgsize_t)));
+            } else if (cgi_convert_data(ElementDataSize, m_type, elements,
+                                        cgi_datatype(CG_SIZE_DATATYPE), &newelems[n])) {
+                free(newelems);
+                return CG_ERROR;
+            }
             n += ElementDataSize;
             if (end < section->range[1]) {
                 num = end - section->range[0] + 1;
